@@ -33,6 +33,12 @@
 //!   well-formed frames, so a call that fails is the client's doing.
 //! * `batch-connection-loss` (c04_cut.rs): the fake server answers a non-prefix subset of a batch in any order and then
 //!   closes (FIN, RST, WebSocket close frame): slots answered before the close hold their own token, the others an error.
+//! * `trickle` (c04_trickle.rs): the answers arrive SPREAD OVER TIME. Every response frame is written in pieces (cut inside
+//!   the header, at the header/query/body boundaries, inside query and body) with pauses of a few ms up to 1.4 s between the
+//!   pieces (WebSocket: continuation fragments with the pauses between them, plus TCP-level cuts), several calls in flight,
+//!   permuted order, and response bodies that hold, right after a cut point, the byte image of a response frame for ANOTHER
+//!   in-flight id. Many connections, each with its own fake server thread, run in parallel. Every call returns exactly its own
+//!   response; none fails while the peer never broke the connection.
 //!
 //! The verdict is computed offline over the recorded history of a scenario (`judge`).
 
@@ -2788,6 +2794,9 @@ mod imp {
     mod cut {
         include!("c04_cut.rs");
     }
+    mod trickle {
+        include!("c04_trickle.rs");
+    }
 
     pub fn run(args: &Args) -> Report {
         let rep = Report::new(
@@ -2807,6 +2816,10 @@ mod imp {
              before/between/after the responses of 1..8 calls in flight (calls and batch, all three clients): every call in flight and every later call on the \
              same connection returns its own response; batch-connection-loss: the fake server answers a non-prefix subset of a batch in any order, then closes \
              (FIN / RST / WebSocket close): every slot answered before the close holds its own token, every other slot an error, positions aligned; \
+             trickle: 3..7 calls in flight per connection (many connections in parallel, all three clients), every response frame written in pieces cut inside the \
+             header / at the boundaries / inside query and body with pauses of 1 ms .. 1.4 s between the pieces (stalls above 1.1 s inside one frame; WebSocket: \
+             continuation fragments, pings between fragments, TCP-level cuts), bodies holding the image of a response frame for another in-flight id right after \
+             a cut: every call returns exactly the response sent for its id (value / header, query and body bytes), no call fails while the peer never closed; \
              distinct = reply scripts + probe-order interleavings",
         );
         let rt = match tokio::runtime::Builder::new_multi_thread().worker_threads(4).enable_all().thread_name("c04-rt").build() {
@@ -2849,9 +2862,14 @@ mod imp {
         // execute only the recorded one, 400 times with different delay salts
         if let Some(path) = &args.replay {
             let v: Option<Value> = std::fs::read_to_string(path).ok().and_then(|t| serde_json::from_str(&t).ok());
+            // the driver wraps the replay object of a violation: {property, tier, seed, stage, sig, detail, scenario: {..}}
+            let v: Option<Value> = v.map(|v| match v.get("scenario") {
+                Some(s) if s.get("family").is_some() => s.clone(),
+                _ => v,
+            });
             match v.as_ref().and_then(|v| Some((v.get("family")?.as_str()?.to_string(), v.get("index")?.as_u64()?, v.get("seed")?.as_u64()?))) {
                 Some((fam, idx, seed)) if seed == args.seed => {
-                    let fam = ["perm6", "perm6+extras", "random", "bigbatch", "forward", "reuse-window", "no-subscriber", "unmatched-run", "batch-connection-loss"].into_iter().find(|f| *f == fam).unwrap_or("random");
+                    let fam = ["perm6", "perm6+extras", "random", "bigbatch", "forward", "reuse-window", "no-subscriber", "unmatched-run", "batch-connection-loss", "trickle"].into_iter().find(|f| *f == fam).unwrap_or("random");
                     st.only = Some((fam, idx));
                     st.rep.set("replay_of", json!({"family": fam, "index": idx}));
                 }
@@ -2869,7 +2887,7 @@ mod imp {
         // several requests; the same sizes on the async and the WebSocket client
         // development stages: `--stage unmatched-run` / `--stage batch-connection-loss` run that one family alone, with a
         // ten times larger budget (many-seed soundness runs of the two families); `--stage main` runs everything
-        let solo: Option<&str> = ["unmatched-run", "batch-connection-loss"].into_iter().find(|f| *f == args.stage);
+        let solo: Option<&str> = ["unmatched-run", "batch-connection-loss", "trickle"].into_iter().find(|f| *f == args.stage);
         if let Some(f) = solo {
             st.rep.set("solo_family", json!(f));
         }
@@ -2957,6 +2975,14 @@ mod imp {
             cut::run_family(&mut st, args, &mut index);
         }
         st.rep.set("wall_ms_family_batch_connection_loss", json!(t_family.elapsed().as_millis() as u64));
+
+        // (0g) responses that arrive spread over time: every frame in pieces with pauses between them (WebSocket: continuation
+        // fragments), frames for other in-flight ids inside response bodies; all connections of a round in parallel
+        let t_family = Instant::now();
+        if solo.is_none() || solo == Some("trickle") {
+            trickle::run_family(&mut st, args, &mut index);
+        }
+        st.rep.set("wall_ms_family_trickle", json!(t_family.elapsed().as_millis() as u64));
 
         // (a) exhaustive: every reply order for 6 concurrent calls, each client kind, calls and batch
         let reps = if solo.is_some() { 0 } else { args.budget(2, 20).max(1) };
